@@ -43,6 +43,7 @@ enum NoteKind : uint8_t {
 	NOTE_ITER,           // external iterate-and-remove: a = 1 if the iteration visited exactly the pre-op plan in order, b = visited count
 	NOTE_BUFEQ,          // a = (buf0 == buf1), b = (buf0 != buf1), c = bytes equal
 	NOTE_BUFACT,
+	NOTE_HELD,           // a = the CPlan, b = the Plan obtained before the operation iterate exactly what a fresh plan() shows after it
 	NOTE_AFTER,          // observation right after the actions of a callback (state = callback state, d = method): req + machine view         // a, b = activity (active state or NOID) of the savers behind buffers 0 and 1
 };
 
@@ -91,7 +92,8 @@ struct Ev {
 };
 
 struct Info {  // static description of the zoo member the case ran on
-	uint8_t cfg = 0, N = 0, L = 0, head = 0, manual = 0, paySize = 0, payAlign = 0, ctx = 0;
+	uint8_t cfg = 0, N = 0, L = 0, head = 0, manual = 0, payAlign = 0, ctx = 0;
+	uint16_t paySize = 0;
 	uint16_t cap = 0;
 	uint8_t inj[64] = {};   // injections per state
 	uint8_t headInj = 0;
